@@ -19,6 +19,12 @@ RULE = (
     "in quick), header bytes included; (3) with validate=0 the three CRC bytes do not influence the result. "
     "distinct = blake2b(input, relation); non-trivial = input length >= 4 bytes"
 )
+RULE += (
+    ' Also: syndrome-targeted bursts (GF(2) elimination), nested crafted frames, intact frame parsed'
+    ' first, validate values True/3/5, the same bytearray / memoryview damaged in place, validate=0 then'
+    ' validate=1 on the same bytes, a non-validating reader then a validating reader over the same bytes,'
+    ' validate=0 under headers that do not describe the buffer.'
+)
 ASSUMPTIONS = [
     "GF(2) long-division reference and table-driven reference agree on every input (checked at run time)",
     "frame length << 2^23-1 bits, so every 2-bit error is detectable; (x+1) | G so every odd-weight error is",
